@@ -415,6 +415,21 @@ theorem uv_is_monomial (G : TGraph α) (x : ℕ → ℝ) (σ : List ℕ) (hσ : 
     obtain ⟨a1, a2, a3, a4, a5⟩ := uv_attained_momentum G.topology G.externals x σ hσ hvalid k hk v w hv hw (hj v hv w hw) hnj
     exact ⟨a1, a2, a3, a4, by rw [a5, h3]⟩
 
+/-! non-vacuity: the massless triangle with its three vertices external and the removal order 0, 1, 2 meets every hypothesis of
+`uv_is_monomial` -/
+noncomputable def triG : TGraph ℝ :=
+  { dod := 1, topology := [⟨0, 1, 1, false⟩, ⟨1, 2, 1, false⟩, ⟨2, 0, 1, false⟩], numMassive := 0, externals := [0, 1, 2], numLoops := 1 }
+
+theorem tri_full : mmOf triG (Mask.edges triG.topology.length 7).toFinset = true := by
+  rw [mmOf_edges triG 3 7, (C03.preEntry_flags triG 3 7).2]
+  decide
+
+theorem tri_edges : Mask.edges triG.topology.length 7 = [0, 1, 2] := by decide
+
+example (x : ℕ → ℝ) :=
+  uv_is_monomial triG x [0, 1, 2] (by decide) (by decide) (by decide) (by rw [← tri_edges]; exact tri_full) 0 1
+    (by decide) (by decide) (by decide)
+
 end model3
 
 end Momtrop.C07
